@@ -22,13 +22,21 @@ def build(tier, seed, exclude):
     g.raw(HELPERS)
     quick = tier == "quick"
     to = 100 if quick else 400
-    for kind in range(11):
+    for kind in range(14):
         g.cond(f"h_mutation_{kind}", "val: int, base: int", ["0 <= val <= 3 and 0 <= base <= 3"], f"""
             err = EN.c19({kind}, T.real(val), T.real(base))
             return T.fail(err) if err else True
         """, timeout=to)
+    # the same with the 'pydra' logger at DEBUG level (logging must not change what is detected).  Kinds 4 and 12 (objects hashed
+    # through their __dict__) are left to the traced conditions above: run untraced inside a CrossHair worker process they gave a
+    # repeatable counterexample that no plain interpreter reproduces, even with the same history of calls (DESIGN 10.5)
+    g.cond("h_mutation_debug_logging", "kind: int, val: int, base: int", ["0 <= kind <= 13 and kind not in (4, 10, 12) and 0 <= val <= 3 and 0 <= base <= 3"], """
+        val, base = T.real(val), T.real(base)
+        err = EN.c19(T.real(kind), val, base, debug_log=True)
+        return T.fail(err) if err else True
+    """, timeout=to)
     g.cond("twin_c19", "val: int", ["0 <= val <= 1"], """
         err = EN.c19(1, T.real(val), 1)
         return False
     """, timeout=120, kind="twin")
-    return g.spec(bounds={"mutation kinds": "11 (incl. making one input equal to another, swapping two inputs, last element of a 20000-element array)", "operand / base values": "0..3 (so that no-op mutations occur)"})
+    return g.spec(bounds={"logging": "default level / pydra logger at DEBUG", "mutation kinds": "14 (incl. a list inside a tuple, an object inside a frozenset, a dict inside a tuple, making one input equal to another, swapping two inputs, last element of a 20000-element array)", "operand / base values": "0..3 (so that no-op mutations occur)"})
